@@ -17,6 +17,16 @@
    data region is 0 ([arc_pad]).  An un-padded image whose first data word happens to be 0 is therefore outside the
    relation (the code would add 0x60 to its offsets); the property text ("when one is present") leaves this open, the
    relation adopts the code's rule.
+   KNOWN FINDING F27 (known_findings.json, status known; NOT repaired - a repair is a format decision).  The property text
+   quantifies over images "with and without the padded header, any placement of file bodies".  An UN-padded image whose
+   first data word is 0 (a first body starting with 00 00 00 00, an empty / short zero body or an alignment gap at data
+   offset 0) IS such an image ([arc_spec], the reading of the text with an explicit padding), but arc.rs:23 takes "first
+   u32 = 0" for "the header is present" and adds 0x60 to every offset: Err(OutOfBounds) for small images, and - when the
+   tables behind the bodies give 0x60 bytes of slack - Ok with bytes of the Count / Info tables under the right names
+   (silent wrong data).  The model agrees with the code.  The FULL statement is the Definition C16_extract_full; it is
+   REFUTED (C16_extract_full_refuted, witnesses C16_F27_witness_rejected and C16_F27_witness_wrong_data); what is proved
+   is C16_extract_outside_known: every image of [arc_spec] that is not [KnownF27] (un-padded layout /\ first data word = 0)
+   is extracted exactly.  [arc_layout] is [arc_layout_with] at the padding the heuristic picks (C16_layout_explicit).
    Byte level: C16_file_reads_content - on ANY byte string that conforms to the bin-archive format relation of C01
    (Proofs/BinFormatSpec.v: tables in any order, strings anywhere in the text section) the byte-level reader is the
    archive-level reader on the file's content; it rests on C01's parser correctness (Proofs/TextBinBridge.v:
@@ -32,6 +42,30 @@ Local Open Scope N_scope.
 (* ---- extraction returns exactly the packed files (in record order, hence as a finite map) ---- *)
 Theorem C16_extract : forall m a files, arc_layout a files -> arc_from_archive m a = Ok files.
 Proof. exact arc_extract. Qed.
+(* ---- the property's sentence with an explicit padding, the known finding F27 carved out ---- *)
+(* arc_layout = the layout at the padding the code's heuristic picks from the first data word *)
+Theorem C16_layout_explicit : forall a files,
+  arc_layout a files <-> exists w0, read_u32 a 0 = Ok w0 /\ arc_layout_with (arc_pad w0) a files.
+Proof. exact arc_layout_explicit. Qed.
+(* FULL statement (arc_spec a files := un-padded layout, offsets from the data start, \/ 0x60 zero header present and offsets
+   from its end): extraction returns exactly the packed files.  NOT a theorem: *)
+Definition C16_extract_full : Prop := forall m a files, arc_spec a files -> arc_from_archive m a = Ok files.
+Theorem C16_extract_full_refuted : ~ C16_extract_full.
+Proof. exact arc_extract_full_refuted. Qed.
+(* proved: every described image outside the known finding (KnownF27 a files := arc_layout_with 0 a files /\ read_u32 a 0 = Ok 0) *)
+Theorem C16_extract_outside_known : forall m a files,
+  arc_spec a files -> ~ KnownF27 a files -> arc_from_archive m a = Ok files.
+Proof. exact arc_extract_outside_known. Qed.
+(* the witnesses: an un-padded image of one file 00 00 00 00 AA BB at data offset 0 is rejected; an un-padded image of seven
+   8-byte files (first body zero-leading, tables behind the bodies) is ACCEPTED with the wrong bytes for all seven names *)
+Example C16_F27_witness_rejected :
+  KnownF27 f27_archive [([122], [0;0;0;0;0xAA;0xBB])] /\ forall m, arc_from_archive m f27_archive = Err EOob.
+Proof. split; [exact f27_known | exact f27_rejected]. Qed.
+Example C16_F27_witness_wrong_data :
+  arc_layout_with 0 f27_archive7 f27_files7 /\ read_u32 f27_archive7 0 = Ok 0 /\
+  (forall m, arc_from_archive m f27_archive7 = Ok f27_wrong7) /\ f27_wrong7 <> f27_files7 /\ map fst f27_wrong7 = map fst f27_files7.
+Proof. split; [exact f27_7_is_unpadded_layout|]. split; [reflexivity|]. split; [exact f27_7_wrong_data|]. split; [exact f27_7_differs | reflexivity]. Qed.
+
 Theorem C16_extract_as_map : forall m a files, arc_layout a files ->
   exists r, arc_from_archive m a = Ok r /\ NoDup (map fst r) /\ length r = length files /\
     (forall name body, In (name, body) files -> fm_get name r = Some body) /\
